@@ -403,6 +403,22 @@ def run_fs(desc):
                     out.violation(dict(case, problem='globmatch(REALPATH) of escape(name) does not accept exactly the name', got=sorted(acc)[:6],
                                        want=sorted(want)), size=len(name) * 10 + len(names), bucket=('fs-match', name))
                     continue
+                # the converse on the file system: a name that is_magic() calls plain under these flags, used as it stands
+                if '/' not in name and not G.is_magic(name, flags=fl):
+                    try:
+                        with util.watchdog(5), util.ScandirCounter(2000):
+                            res2 = G.glob(name, flags=fl, root_dir=root)
+                            acc2 = G.globfilter(on_disk, name, flags=fl | G.REALPATH, root_dir=root)
+                    except util.HarnessBudget:
+                        continue
+                    except Exception as e:
+                        out.violation(dict(case, pattern=name, problem='exception', error=list(util.exc_bucket(e))), bucket=('fs-plain-exc', type(e).__name__))
+                        continue
+                    out.evaluations += 2
+                    if set(res2) != want or set(acc2) != want:
+                        out.violation(dict(case, pattern=name, converse=True, problem='a pattern that is_magic() calls plain does not select exactly the entry of that name',
+                                           got=sorted(res2)[:6], matched=sorted(acc2)[:6], want=sorted(want)), size=len(name) * 10 + len(names), bucket=('fs-plain', name))
+                        continue
                 out.nontrivial((name, tuple(names), 'fs'))
     out.sample({'mode': 'fs', 'names': on_disk[:12], 'flag_subsets_per_name': 4096 // 7})
     return out
